@@ -6,6 +6,7 @@ import (
 	"net/http"
 
 	"github.com/buildbuildio/pebbles/common"
+	"github.com/buildbuildio/pebbles/gqlerrors"
 	"github.com/buildbuildio/pebbles/requests"
 	"github.com/samber/lo"
 )
@@ -162,18 +163,28 @@ func (q *MultiOpQueryer) queryBatch(inputs []*requests.Request) ([]map[string]in
 		return nil, fmt.Errorf("expected %d responses from %s, got %d", len(inputsToFetch), q.url, len(resps))
 	}
 
-	// format the result as needed
+	// format the result as needed, collecting the errors of every response
+	var errs gqlerrors.ErrorList
 	for i, resp := range resps {
 		if len(resp.Errors) != 0 {
-			return nil, resp.Errors
+			errs = append(errs, resp.Errors...)
+			continue
 		}
 
 		// neither data nor errors is not a graphql response
 		if resp.Data == nil {
-			return nil, fmt.Errorf("response from %s carries neither data nor errors", q.url)
+			errs = append(errs, gqlerrors.NewError(
+				gqlerrors.UndefinedError,
+				fmt.Errorf("response from %s carries neither data nor errors", q.url),
+			))
+			continue
 		}
 
 		results[toFetchIndexes[i]] = resp.Data
+	}
+
+	if len(errs) != 0 {
+		return nil, errs
 	}
 
 	return results, nil
